@@ -73,7 +73,7 @@ def children(h, name, kind):
 def expected_root_flows(spec, res):
     """the driver's own tally: initial capital on the synthetic row, CapitalFlow amount on tap dates"""
     b = res["b"]
-    labels = res["hist"][b.strategy.full_name]["flows"][0]
+    labels = res["hist"][R.node_path(b.strategy)]["flows"][0]
     exp = [0.0] * len(labels)
     exp[0] = float(spec.get("capital", 1000000.0))
     fl = (spec.get("stack") or {}).get("flow")
@@ -89,7 +89,7 @@ def check_ledgers(prop, spec, res):
     out = []
     h = res["hist"]
     b = res["b"]
-    root = b.strategy.full_name
+    root = R.node_path(b.strategy)
     scale = float(spec.get("capital", 1e6))
     n = len(h[root]["values"][1])
     strategies = nodes(h, "S")
@@ -192,7 +192,7 @@ def run_scaled_case(item):
             return ("refused", [], None)
         if res["status"] == "crash":
             return ("crash", [{"rule": "crash", "observed": res["err"]}], None)
-        root = res["b"].strategy.full_name
+        root = R.node_path(res["b"].strategy)
         series.append(res["hist"][root]["prices"][1])
     viols = []
     base = series[1]
